@@ -86,6 +86,29 @@ theorem before_fork :
   simp only [rule, eval]
   decide +kernel
 
+/-! ## (package p14) a vector with blanks, quotes and `*`: three configured strings, three arguments -/
+
+/-- `match all exec { "printf" "a b 'c' *" "-x" }` -/
+def ruleA : Expr := .mtch 1 (.all 1) (.exec 1 false false [ofString "printf", ofString "a b 'c' *", ofString "-x"])
+
+def confA : List ConfBlock := [{ paths := [[47, 109]], expr := ruleA }]
+
+def traceA : List (Call × Res) :=
+  (runOracle (orcl false) (mainP exEnv wholeExOrc true confA wholeExFiles []) 0 []).2
+
+set_option maxRecDepth 100000 in
+/-- The `fork` (call 8) carries the three configured strings as three arguments, byte for byte, and the handle 6 that the
+call before (`open("/dev/null")`) returned. -/
+theorem tablesA :
+    traceA[7]? = some (.openPath Own.devNull, .ok 6) ∧
+    traceA[8]? = some (.fork [ofString "printf", ofString "a b 'c' *", ofString "-x"] 6, .ok 0) := by
+  unfold traceA
+  rw [Own.mainP_eq]
+  unfold Own.mainK
+  simp only [confA, Own.blocks_cons, Own.blocks_nil, Own.paths_cons, Own.paths_nil, dry_walk_G _ _ ruleA (by decide)]
+  simp only [ruleA, eval]
+  decide +kernel
+
 /-! ## a `command` condition: the `fork` of evaluation -/
 
 /-- `processMessage` with the evaluation program as a parameter (equal to `processMessage` by `rfl`), which makes the call
